@@ -225,7 +225,8 @@ def memsim_ops(config, flags):
             reg(f'op_tovector<{t},{sh}>', 'exempt', 'F_EXEMPT')
             reg(f'op_print<{t},{sh}>', 'exempt', 'F_EXEMPT')
     # complex element types (own SIMD wrappers with interleaved real/imaginary loads and stores)
-    for t in ('std::complex<float>', 'std::complex<double>'):
+    # (under FASTOR_DONT_VECTORISE complex tensors do not compile: simd_vector_complex_scalar.h, an API gap)
+    for t in (() if 'DONT_VECTORISE' in flags else ('std::complex<float>', 'std::complex<double>')):
         for n in range(1, 20):
             reg(f'op_map_cx<{t},{n}>', 'complex_map', 'F_ANYALIGN', keep=n in (3, 5, 9, 17))
             if n % 2 == 1:
